@@ -96,6 +96,9 @@ type Flow struct {
 	writes []WriteRec // index = counter
 	seq    uint16
 	arbSeq bool
+	// sentinelFrom > 0: every forwarded write with a counter >= sentinelFrom is drain traffic,
+	// also the ones that reach the forwarding point after MarkSentinelFrom was called
+	sentinelFrom int
 }
 
 // Traffic groups the flows of one run (one stream description).
@@ -218,6 +221,9 @@ func (f *Flow) Forward(pkt *rtp.Packet) int {
 	for len(f.writes) <= ctr {
 		f.writes = append(f.writes, WriteRec{})
 	}
+	if f.sentinelFrom > 0 && ctr >= f.sentinelFrom {
+		rec.Sentinel = true
+	}
 	f.writes[ctr] = rec
 	f.mu.Unlock()
 	c := Tick()
@@ -230,6 +236,9 @@ func (f *Flow) Forward(pkt *rtp.Packet) int {
 // MarkSentinelFrom marks every write from counter ctr on as a sentinel (drain traffic).
 func (f *Flow) MarkSentinelFrom(ctr int) {
 	f.mu.Lock()
+	if ctr > 0 {
+		f.sentinelFrom = ctr
+	}
 	for i := ctr; i < len(f.writes); i++ {
 		f.writes[i].Sentinel = true
 	}
